@@ -507,8 +507,9 @@ impl<'a> Compiler<'a> {
         }
 
         let locals = &mut self.locals[function_id - 1];
-        // try to find in the locals of the parent function
-        for (i, local) in locals.iter_mut().enumerate() {
+        // try to find in the locals of the parent function, innermost declaration first like
+        // resolve_var
+        for (i, local) in locals.iter_mut().enumerate().rev() {
             if local.name == name {
                 local.captured = true;
                 return self
